@@ -562,6 +562,14 @@ func (l *Logger) rotateFileLocked() {
 
 	// Rename with timestamp
 	rotatedPath := fmt.Sprintf("%s.%s", l.filePath, time.Now().Format("20060102-150405"))
+	// Two rotations within the same second must not overwrite each other's file
+	// (that would silently drop a whole file of translation records)
+	for n := 1; ; n++ {
+		if _, err := os.Stat(rotatedPath); os.IsNotExist(err) {
+			break
+		}
+		rotatedPath = fmt.Sprintf("%s.%s.%d", l.filePath, time.Now().Format("20060102-150405"), n)
+	}
 	os.Rename(l.filePath, rotatedPath)
 
 	// Compress if enabled
